@@ -8,7 +8,7 @@ RULE = ('random RFC 8259 texts: every escape spelling, code points at all UTF-8 
         'expected tree computed independently in python (float() for the correctly rounded double); non-trivial = distinct valid text longer than 4 bytes')
 ASSUMPTIONS = ['C locale', 'glibc strtod is correctly rounded (validated against python float() on every number of the run)', 'hand-written transliteration validated by this differential run']
 
-def corpus(ctx): return load_corpus(ctx['verif'], 'C02')
+def corpus(ctx): return G.parse_corpus(ctx, 'C02', {'accept_only': True})
 def generate(ctx):
     import random
     rng = random.Random(ctx['seed'] * 2147483647 + 2)
